@@ -272,6 +272,11 @@ class Runner:
             self.lg("prog", self.classify(e), self.now())
             if self.classify(e) == "intr":
                 self.fail("interrupt-escaped", "a TimeoutInterrupt left the outermost block unconverted")
+        except BaseException as e:  # noqa: BLE001
+            # anything else out of task_timeout (AssertionError, RuntimeError, …): recorded and judged, not a crash
+            self.keep.append(e)
+            self.lg("prog", type(e).__name__, self.now())
+            self.fail("foreign-exception", f"task {tid}: {type(e).__name__}: {e} escaped from the timed block")
         self.after[tid] = True
         if tid == 0:
             self.after_block = True
@@ -365,7 +370,9 @@ class Runner:
     def before_handle(self, handle):
         self.handles += 1
         if self.handles > MAX_HANDLES:
-            raise core.InfraError("C16 run does not terminate")
+            # misbehaving code under test (e.g. an interruptor that never stops retrying): an observation
+            self.bad.append(("livelock", f"the run does not finish within {MAX_HANDLES} handles"))
+            raise RuntimeError("C16 livelock")
         self.cur_handle_level = self.timer_level.get(id(handle))
         if self.cur_handle_level is not None:
             self.levels[self.cur_handle_level]["fired"] = True
